@@ -293,6 +293,7 @@ var oddIPs = []string{
 	"256.1.1.1", "1.1.1.256", "1.1.1.999", "1.1.1.1 ", " 1.1.1.1", "1.1.1.1\n", "1.1.1.-1", "+1.1.1.1", "1.1.1.1%eth0", "%", "1%.1.1.1",
 	"0x1.1.1.1", "1.1.1.1e0", "1,1,1,1", "localhost", "example.com", "1.1.1.a", "１.1.1.1", "1.1.1.1/24", "1.1.1.1.", "....", "1", "16843009",
 	"::1", "::", "::ffff:1.1.1.1", "::ffff:10.0.0.1", "::ffff:127.0.0.1", "::ffff:0101:0101", "::1.1.1.1", "2001:db8::1", "fe80::1%eth0", "[::1]",
+	"[1.1.1.1]", "[8.8.8.8]", "[::ffff:1.1.1.1]", "[::ffff:101:101]", "[1.1.1.1", "1.1.1.1]", "[[1.1.1.1]]", "[1.1.1.1]x", "[]",
 	"::ffff:224.0.0.1", "::ffff:8.8.8.8", "0:0:0:0:0:ffff:1.1.1.1", "1.1.1.1:", ":1.1.1.1", "1.1:1.1", "::ffff:192.168.0.1", "64:ff9b::1.1.1.1",
 }
 
@@ -377,6 +378,25 @@ func randHostname(rng *rand.Rand) string {
 		n += l
 	}
 	return strings.ToValidUTF8(sb.String(), "?")
+}
+
+// nestedHostname: a style code that only becomes visible when the one inside it has been removed, depth levels deep
+// ("[[[b]b]b]x"): Clean has to sweep once per level.
+func nestedHostname(rng *rand.Rand, depth int) string {
+	codes := [][2]string{{"[", "b]"}, {"[", "\\C]"}, {"[", "u]"}, {"[\\", "c]"}, {"[c=ff", "0000]"}, {"[", "\\B]"}}
+	var open, close string
+	k := rng.Intn(len(codes))
+	for i := 0; i < depth; i++ {
+		if rng.Intn(3) == 0 {
+			k = rng.Intn(len(codes))
+		}
+		open += codes[k][0]
+		close = codes[k][1] + close
+	}
+	// the innermost code must be a complete one
+	inner := []string{"[b]", "[\\c]", "[u]", "[c=00ff00]"}[rng.Intn(4)]
+	tail := []string{"", "x", "Srv", " s ", "<b>"}[rng.Intn(5)]
+	return open + inner + close + tail
 }
 
 // the 12-symbol alphabet enumerated exhaustively in the thorough tier
@@ -552,6 +572,18 @@ func gen(rng *rand.Rand, tier core.Tier, emit core.Emit) {
 	for _, s := range hostAlphabet {
 		emit("html", hx(s))
 		emit("clean", hx(s))
+	}
+	for depth := 1; depth <= 30; depth++ {
+		for k := 0; k < 3*scale; k++ {
+			hn := nestedHostname(rng, depth)
+			if len([]rune(hn)) > 64 && k > 0 {
+				continue // beyond the game's limit: one specimen per depth is enough
+			}
+			emit("html", hx(hn))
+			emit("clean", hx(hn))
+			st := fmt.Sprintf("p:1.1.1.1:10480:%d:10481:%s", randStatus(rng)|int(ds.Details), hx(hn))
+			emit("view", st, hx("1.1.1.1:10480"))
+		}
 	}
 	for i := 0; i < 1500*scale; i++ {
 		h := hx(randHostname(rng))
